@@ -4,6 +4,7 @@ import (
 	"fmt"
 	"math"
 	"math/big"
+	"reflect"
 	"sort"
 	"strconv"
 
@@ -148,6 +149,16 @@ func Numeric(seed uint64, n int) *Out {
 			}
 			term := fmt.Sprintf("(%s NC $ID orc %s %s %s)", eng.Oracles(node, &in.v, reflectZero()), coqKind(k), eng.CoqIVal(in.v), obs)
 			id := o.Add(k+"<-"+in.v.Kind, fmt.Sprint(in.v), term)
+			// the same leaf somewhere else (element of a []any, of a typed Go slice, struct field, behind a
+			// pointer) is coerced in the same way: same value or an issue
+			if in.v.Kind != "list" && in.v.Kind != "other" {
+				for _, pl := range placements(k, data) {
+					if pl.ok != ok || (ok && !sameNum(pl.got, got)) {
+						o.Failures = append(o.Failures, Failure{ID: id, Tags: []string{"numeric_placement"},
+							Detail: fmt.Sprintf("%s of %v (%T): at top level ok=%v value=%v, as %s ok=%v value=%v", k, in.v, data, ok, got, pl.where, pl.ok, pl.got)})
+					}
+				}
+			}
 			// the property's own oracle, independent of the model: same number or an issue
 			if ok {
 				if q := exactOf(in.v); q != nil {
@@ -178,6 +189,105 @@ func Numeric(seed uint64, n int) *Out {
 		}
 	}
 	return o
+}
+
+type placed struct {
+	where string
+	ok    bool
+	got   any
+}
+
+func sameNum(a, b any) bool {
+	switch x := a.(type) {
+	case int64:
+		y, ok := b.(int64)
+		return ok && x == y
+	case float64:
+		y, ok := b.(float64)
+		return ok && math.Float64bits(x) == math.Float64bits(y) || (ok && math.IsNaN(x) && math.IsNaN(y))
+	}
+	return false
+}
+
+// placements runs the numeric schema of kind k on data placed as a slice element ([]any and a
+// typed slice of data's own Go type), as a struct field and behind a pointer.
+func placements(k string, data any) []placed {
+	mk := func() z.ZogSchema {
+		switch k {
+		case eng.KInt:
+			return z.Int()
+		case eng.KInt32:
+			return z.Int32()
+		case eng.KInt64:
+			return z.Int64()
+		case eng.KFloat32:
+			return z.Float32()
+		}
+		return z.Float64()
+	}
+	var elemT reflect.Type
+	switch k {
+	case eng.KInt:
+		elemT = reflect.TypeOf(int(0))
+	case eng.KInt32:
+		elemT = reflect.TypeOf(int32(0))
+	case eng.KInt64:
+		elemT = reflect.TypeOf(int64(0))
+	case eng.KFloat32:
+		elemT = reflect.TypeOf(float32(0))
+	default:
+		elemT = reflect.TypeOf(float64(0))
+	}
+	num := func(v reflect.Value) any {
+		if v.Kind() == reflect.Float32 || v.Kind() == reflect.Float64 {
+			return v.Float()
+		}
+		return v.Int()
+	}
+	var out []placed
+	run := func(where string, f func() (bool, any)) {
+		defer func() {
+			if r := recover(); r != nil {
+				out = append(out, placed{where: where + " (panic: " + fmt.Sprint(r) + ")"})
+			}
+		}()
+		ok, got := f()
+		out = append(out, placed{where: where, ok: ok, got: got})
+	}
+	sliceRun := func(in any) (bool, any) {
+		dest := reflect.New(reflect.SliceOf(elemT))
+		errs := z.Slice(mk()).Parse(in, dest.Interface())
+		if len(errs) != 0 || dest.Elem().Len() != 1 {
+			return false, nil
+		}
+		return true, num(dest.Elem().Index(0))
+	}
+	run("element of []any", func() (bool, any) { return sliceRun([]any{data}) })
+	if data != nil {
+		run(fmt.Sprintf("element of []%T", data), func() (bool, any) {
+			ts := reflect.MakeSlice(reflect.SliceOf(reflect.TypeOf(data)), 1, 1)
+			ts.Index(0).Set(reflect.ValueOf(data))
+			return sliceRun(ts.Interface())
+		})
+	}
+	run("struct field", func() (bool, any) {
+		st := reflect.StructOf([]reflect.StructField{{Name: "V", Type: elemT}})
+		dest := reflect.New(st)
+		errs := z.Struct(z.Schema{"v": mk()}).Parse(map[string]any{"v": data}, dest.Interface())
+		if len(errs) != 0 {
+			return false, nil
+		}
+		return true, num(dest.Elem().Field(0))
+	})
+	run("behind a pointer", func() (bool, any) {
+		dest := reflect.New(reflect.PointerTo(elemT))
+		errs := z.Ptr(mk()).Parse(data, dest.Interface())
+		if len(errs) != 0 || dest.Elem().IsNil() {
+			return false, nil
+		}
+		return true, num(dest.Elem().Elem())
+	})
+	return out
 }
 
 func isBlankStr(s string) bool {
